@@ -10,7 +10,7 @@ pub mod time;
 
 pub use rt::{
     block, blocked_snapshot, current_tid, in_sim, knob_cpus, now_ns, point, run, settle, steps,
-    thread_is_finished, BlockedInfo, Buggify, Config, End, Obj, Op, Outcome, SeamEvent, Strategy,
+    thread_is_finished, wait_others, BlockedInfo, Buggify, Config, End, Obj, Op, Outcome, SeamEvent, Strategy,
     Tid, Wake,
 };
 
